@@ -148,6 +148,13 @@ func Execute(t *testing.T, cfg *RunConfig) *Outcome {
 	defer setCurrent(nil)
 	out := &Outcome{Cfg: cfg, NamedItem: -1, Stream: st}
 	body := func() {
+		for _, pre := range cfg.Prelude {
+			pc := RunConfig{Workflow: pre.Workflow, NumByte: pre.NumByte, Stream: pre.Stream, Chunk: ChunkSpec{Kind: "full"}, Fault: FaultSpec{Kind: "none"}}
+			pst := BuildStream(pre.Stream, pc.Required())
+			rs.setPrelude(true)
+			callWorkflow(pre.Workflow, NewSimSource(pst, &pc, true), pre.NumByte)
+			rs.setPrelude(false)
+		}
 		v, err := callWorkflow(cfg.Workflow, src, cfg.NumByte)
 		out.Verdict = v
 		out.ErrNil = err == nil
